@@ -272,4 +272,24 @@ PROPS = {
             {"name": "cli", "test": "TestCLI", "checks": {Q: 320, T: 6000}, "shards": {Q: 8, T: 16}, "timeout": {Q: 400, T: 2400}},
         ],
     },
+    "C13": {
+        "pkg": "c13", "bin": False,
+        "technique": "matrix enumeration (over-runner shape x position x hook x allow_failure) + rapid tasks against a task-run model "
+                     "with wall-clock budgets",
+        "level_text": "External sleep, shell busy loop and a child that ignores SIGINT over-run at every position of 1..3 commands and in "
+                      "before/after, with and without allow_failure; sequences of 2..4 commands of 0.6 x timeout each and instant "
+                      "commands must succeed (every command gets the full timeout). Run must return within the sum of the commands' "
+                      "deadlines (+2.5 s kill grace for the SIGINT-ignoring child) + 1.5 s slack, report failure also with "
+                      "allow_failure, start no later command, and leave no process behind; an over-running `after` is cut short and "
+                      "does not change the result.",
+        "level_note": "Time bounds are generous (a 2x slower termination passes); a breach is re-tried once with 5x slack before it is reported.",
+        "rule": "matrix: 52 cases (exhaustive over the listed grid at timeout 300/500 ms); random: rapid (timeout 200..1000 ms, 1..4 commands, "
+                "hooks). Non-trivial = an over-runner at position >= 1, or in a hook, or with allow_failure, or >= 2 commands of 0.6 x timeout; "
+                "distinct = canonical JSON.",
+        "assumptions": ["the interpreter's kill grace for a child that ignores SIGINT is 2 s (mvdan/sh default)"],
+        "parts": [
+            {"name": "matrix", "test": "TestMatrix", "kind": "plain", "shards": {Q: 16, T: 16}, "timeout": {Q: 400, T: 900}},
+            {"name": "random", "test": "TestRandom", "checks": {Q: 48, T: 1600}, "shards": {Q: 16, T: 16}, "timeout": {Q: 400, T: 2400}, "shrinktime": "40s"},
+        ],
+    },
 }
